@@ -334,3 +334,21 @@ M("c17-ldm-pos", "C17", "flexstack/facilities/decentralized_environmental_notifi
   "                    longitude=denm[\"denm\"][\"management\"][\"eventPosition\"][\"longitude\"],", "                    longitude=denm[\"denm\"][\"management\"][\"eventPosition\"][\"latitude\"],", "LDM location longitude taken from latitude")
 M("c17-seq-race", "C17", "flexstack/facilities/decentralized_environmental_notification_service/denm_transmission_management.py",
   "            self.sequence_number = (self.sequence_number + 1) % 65536\n        return sequence_number", "            self.sequence_number = (self.sequence_number + 1) % 2\n        return sequence_number", "sequence number wraps after two events")
+
+# ---------------------------------------------------------------- C18
+M("c18-continuity", "C18", "flexstack/facilities/vru_awareness_service/vam_constants.py", "TIME_CLUSTER_CONTINUITY = 2.0", "TIME_CLUSTER_CONTINUITY = 20.0", "leader-lost timeout 20 s")
+M("c18-leave-keeps-passive", "C18", "flexstack/facilities/vru_awareness_service/vru_clustering.py",
+  "        self._join_target_cluster_id = None\n        self._state = VBSState.VRU_ACTIVE_STANDALONE\n        logger.info(\n            \"VBS state: VRU_PASSIVE", "        self._join_target_cluster_id = None\n        logger.info(\n            \"VBS state: VRU_PASSIVE", "leaving a cluster does not restore the stand-alone state")
+M("c18-join-notify", "C18", "flexstack/facilities/vru_awareness_service/vam_constants.py", "TIME_CLUSTER_JOIN_NOTIFICATION = 3.0", "TIME_CLUSTER_JOIN_NOTIFICATION = 1.0", "join notification lasts 1 s")
+M("c18-leave-notify", "C18", "flexstack/facilities/vru_awareness_service/vam_constants.py", "TIME_CLUSTER_LEAVE_NOTIFICATION = 1.0", "TIME_CLUSTER_LEAVE_NOTIFICATION = 0.2", "leave notification lasts 0.2 s")
+M("c18-suppress-standalone", "C18", "flexstack/facilities/vru_awareness_service/vru_clustering.py",
+  "            return True  # STANDALONE or CLUSTER_LEADER", "            return self._join_substate is not _JoinSubstate.WAITING  # STANDALONE or CLUSTER_LEADER", "no VAMs while waiting for the join acknowledgement")
+M("c18-role-off-keeps-cluster", "C18", "flexstack/facilities/vru_awareness_service/vru_clustering.py",
+  "            self._state = VBSState.VRU_IDLE\n            self._cluster = None\n", "            self._state = VBSState.VRU_IDLE\n", "role off keeps the owned cluster")
+M("c18-breakup-cpm", "C18", "flexstack/facilities/vru_awareness_service/vru_clustering.py",
+  "                    if reason_str == ClusterBreakupReason.RECEPTION_OF_CPM_CONTAINING_CLUSTER.value:", "                    if reason_str != ClusterBreakupReason.NOT_PROVIDED.value:", "a break-up announcement keeps the member passive")
+M("c18-bbox-revert", "C18", "flexstack/facilities/vru_awareness_service/vru_clustering.py",
+  "            if isinstance(bbox, (tuple, list)) and len(bbox) == 2 and bbox[0] == \"circular\":\n                # decoded ASN.1 CHOICE: (alternative name, value)\n                radius = float(bbox[1].get(\"radius\", vam_constants.MAX_CLUSTER_DISTANCE))\n            elif isinstance(bbox, dict) and \"circular\" in bbox:",
+  "            if bbox and \"circular\" in bbox:", "revert: decoded bounding box crashes the receiver's parser")
+M("c18-leader-timer", "C18", "flexstack/facilities/vru_awareness_service/vru_clustering.py",
+  "            and self._leader_station_id == sender_id\n        ):\n            self._last_leader_vam_time = now", "            and self._leader_station_id != sender_id\n        ):\n            self._last_leader_vam_time = now", "any station but the leader refreshes the leader-lost timer")
